@@ -46,7 +46,12 @@ class Connection:
         return self._process_not_unique(previous)
     else:
       self._gfa = gfa
-      self._initialize_references()
+      try:
+        self._initialize_references()
+      except:
+        # the line is refused: it does not belong to the Gfa
+        self._gfa = None
+        raise
       self._gfa._register_line(self)
       return None
 
